@@ -47,6 +47,19 @@ def nt(expr):
     return norm_src(_TupleStrip().visit(clone(expr)))
 
 
+def ifexp_table(e):
+    """{(canonical condition, truth): normalised branch text} of a (possibly
+    nested) conditional expression; a plain expression gives {(): text}"""
+    if not isinstance(e, ast.IfExp):
+        return {(): nt(e)}
+    c, pol = canon(e.test, True)
+    out = {}
+    for truth, br in ((pol, e.body), (not pol, e.orelse)):
+        for k, v in ifexp_table(br).items():
+            out[((c, truth),) + k] = v
+    return out
+
+
 def fact_about(ps, value_text, form='%s is None'):
     """truth of `<value> is None` on this path, comparing normalised text"""
     for c, t, _pos in ps.order[::-1]:
@@ -683,9 +696,19 @@ def query_multi_spec(rep, rule, func, site):
             continue
         called += 1
         a = fc[0].r.args
-        if len(a) != 1 or not isinstance(a[0], ast.Starred) or match(
-                '[$o.__self__ if isinstance($o, super) else $o for $o in objects]',
-                a[0].value) is None:
+        okargs = False
+        if len(a) == 1 and isinstance(a[0], ast.Starred) and \
+                isinstance(a[0].value, (ast.ListComp, ast.GeneratorExp)) and \
+                len(a[0].value.generators) == 1:
+            comp = a[0].value
+            g = comp.generators[0]
+            src, d = iter_polarity(g.iter)
+            o = g.target.id if isinstance(g.target, ast.Name) else None
+            okargs = nt(src) == 'objects' and d == 'fwd' and not g.ifs and \
+                ifexp_table(comp.elt) == {
+                    (('isinstance(%s, super)' % o, True),): '%s.__self__' % o,
+                    (('isinstance(%s, super)' % o, False),): o}
+        if not okargs:
             problems.append('factory arguments `%s`' % nt(fc[0].r)[:90])
         res = nt(fc[0].r)
         rn = fact_about(ps, res)
